@@ -107,9 +107,62 @@ fn eval_lib(_ctx: &Ctx, case: &LibCase) -> Verdict {
         ensure!(if exact { a == b } else { ulp_close(*a, *b) }, "fold(mirror(x)) differs from fold(x) at flat cell {i}: {a} vs {b} (input {:?})", spec);
     }
 
+    // the same definition on the frequency type-state (Sfs): the fold of the normalised values,
+    // untouched by the fill (no re-normalisation after filling)
+    let sum = spec.sum();
+    let mut sfs_checked = false;
+    if spec.values.iter().all(|v| v.is_finite() && *v >= 0.0) && sum.is_finite() && sum > 0.0 {
+        let scs = spec.to_scs();
+        let (normalised, folded) = guard(|| {
+            let sfs = scs.into_normalized();
+            (Spec::from_scs(&sfs), Spec::from_scs(&sfs.fold().into_spectrum(fill)))
+        })
+        .map_err(|p| Failure::new(format!("fold of the normalised spectrum of shape {:?}: {p}", spec.shape)))?;
+        let want = normalised.fold(fill);
+        for (pos, (g, w)) in folded.values.iter().zip(&want.values).enumerate() {
+            ensure!(
+                (g.is_nan() && w.is_nan()) || ulp_close(*g, *w),
+                "fold of the normalised spectrum (Sfs) of {:?} with fill {fill}: flat cell {pos} = {g}, the definition applied to the normalised values gives {w}",
+                spec
+            );
+        }
+        sfs_checked = true;
+    }
+    // non-finite entries are values like any other: NaN and infinities propagate through the sum
+    // of a mirror pair, and only cells above the fold line receive the fill
+    let mut nonfinite_checked = false;
+    if spec.values.len() >= 2 {
+        let mut values = spec.values.clone();
+        for (i, v) in values.iter_mut().enumerate() {
+            match crate::engine::splitmix64(0xC05 ^ (i as u64) << 8 ^ spec.values.len() as u64) % 7 {
+                0 => *v = f64::NAN,
+                1 => *v = f64::INFINITY,
+                2 => *v = f64::NEG_INFINITY,
+                _ => {}
+            }
+        }
+        let wild = Spec::new(spec.shape.clone(), values);
+        let want = wild.fold(fill);
+        let got = lib_fold(&wild, fill)?;
+        for (pos, (g, w)) in got.values.iter().zip(&want.values).enumerate() {
+            ensure!(
+                (g.is_nan() && w.is_nan()) || g == w || (g.is_finite() && w.is_finite() && ulp_close(*g, *w)),
+                "fold of {:?} with fill {fill}: flat cell {pos} = {g}, the definition gives {w} (non-finite entries must propagate, not be replaced)",
+                wild
+            );
+        }
+        nonfinite_checked = true;
+    }
+
     let d = spec.dims();
     let nontrivial = !antisymmetric(spec) && (d >= 2 || spec.shape.contains(&1));
     let mut pass = Pass::new().nontrivial(nontrivial);
+    if sfs_checked {
+        pass.add_label("also-as-Sfs(normalised)");
+    }
+    if nonfinite_checked {
+        pass.add_label("also-with-NaN/inf-entries");
+    }
     pass.add_label(format!("axes={d}"));
     pass.add_label(if total % 2 == 0 { "even-total(diagonal)" } else { "odd-total" });
     if spec.shape.contains(&1) {
@@ -239,7 +292,7 @@ pub fn check(ctx: &Ctx) -> Check {
     let parts: Vec<Box<dyn Part>> = vec![
         Box::new(EnumPart {
             name: "lib-exhaustive",
-            rule: "every shape with <=4 axes of length <=5 (thorough <=7) and every 5-axis shape of length <=3 x 4 fills x 3 non-ramp value vectors (two hashed-integer, one real); per-cell definition (2s vs T), mass / idempotence / polarity laws with fill 0; non-trivial = input not mirror-antisymmetric and (>=2 axes or a length-1 axis); distinct by shape",
+            rule: "every shape with <=4 axes of length <=5 (thorough <=7) and every 5-axis shape of length <=3 x 4 fills x 3 non-ramp value vectors (two hashed-integer, one real); per-cell definition (2s vs T), mass / idempotence / polarity laws with fill 0; each spectrum is folded a second time on the frequency type-state (into_normalized().fold(), compared with the definition applied to the normalised values) and a third time with a seventh of its entries replaced by NaN / +inf / -inf (which must propagate through the pair sums and never be replaced by the fill); non-trivial = input not mirror-antisymmetric and (>=2 axes or a length-1 axis); distinct by shape",
             exhaustive: true,
             cases: Box::new(move |_| {
                 let mut v: Vec<ShapeCase> = all_shapes(4, 1, max_len).into_iter().map(|shape| ShapeCase { shape }).collect();
